@@ -668,12 +668,15 @@ impl Printf {
                 } => match format_directive(file_info, directive) {
                     Ok(content) => {
                         if let Some(width) = width {
+                            // Pad by hand: the `{:<width$}` machinery panics for widths
+                            // above u16::MAX ("Formatting argument out of range").
+                            let padding = " ".repeat(width.saturating_sub(content.chars().count()));
                             match justify {
                                 Justify::Left => {
-                                    write!(out, "{content:<width$}").unwrap();
+                                    write!(out, "{content}{padding}").unwrap();
                                 }
                                 Justify::Right => {
-                                    write!(out, "{content:>width$}").unwrap();
+                                    write!(out, "{padding}{content}").unwrap();
                                 }
                             }
                         } else {
